@@ -156,8 +156,15 @@ def analyse(prop, m, p, events, acc, sc=0):
     alap_tasks = sum(1 for t in obs.T.values() if t["fwd"] is False and t["leaf"])
     if prop == "C01":
         viol = oracles.c01(m, obs, mech)
-        pat = sorted(collections_counter((len(lst), sum(1 for _, s in lst if s < L - 1e-6)) for d in obs.led.values() for lst in d.values() if len(lst) > 1).items())
-        sig = ("C01", m["res"], m["alap"], tuple(pat))
+        pats = set()
+        team = {indep.tid(t["path"]) for t in m["tasks"] if len(t.get("alloc", [])) > 1}
+        for rid, d in obs.led.items():
+            for idx, lst in d.items():
+                if len(lst) > 1:
+                    kinds = sorted(oracles.portion_interval(m, obs, tid2, idx, s2)[0] for tid2, s2 in lst)
+                    pats.add((len(lst), tuple(kinds), any(tid2 in team for tid2, _ in lst),
+                              tuple(sorted(obs.T[tid2]["fwd"] is not False for tid2, _ in lst))))
+        sig = ("C01", m["res"], m["alap"], tuple(sorted(pats)), min(shared, 6))
         nontriv = shared > 0
     elif prop == "C02":
         cals = indep.calendars(m)
